@@ -467,7 +467,7 @@ int parse_directives(AsmContext *asm_context)
     tokens_get(asm_context, token, TOKENLEN);
     asm_context->symbols.append(
       token,
-      asm_context->address / asm_context->bytes_per_address);
+      (uint32_t)asm_context->address / asm_context->bytes_per_address);
 
     if (asm_context->symbols.scope_start() != 0)
     {
